@@ -109,6 +109,8 @@ func (e *Engine) verifyFunction(fc *FuncContract) *FnResult {
 	for _, rp := range out {
 		c.checkReturn(rp, fc, fn, args)
 	}
+	// every function under contract contributes at least the statement that its body was explored
+	c.structural(c.paths > 0, "explored", fc.Key+"/explored", "", fmt.Sprintf("body translated and explored (%d return paths)", len(out)), fc.Props)
 	if fc.Recover {
 		c.structural(hasDeferredRecover(fn), "structure", fc.Key+"/structure:deferred-recover", "", "goroutine handling network input must have a deferred recover()", []string{"C18"})
 	}
@@ -296,6 +298,12 @@ func (c *Ctx) checkTraces(s *State, env *Env, fc *FuncContract, trace []Event, l
 		props := tr.Props
 		if len(props) == 0 {
 			props = fc.Props
+		}
+		if tr.Kind == "holds" {
+			g := env.evalBool(tr.Cond)
+			c.reportEvalErrors(env, fc, tr.Src)
+			c.oblige(s, "trace", name, g, "", "condition over the path: "+tr.Src, props)
+			continue
 		}
 		if tr.Kind == "each" {
 			n := 0
